@@ -67,8 +67,11 @@ def _sim_replay(ctx, cov, procs, maxops, num, depth, race, tag):
         raise core.Infra("TLC simulation failed: %s" % (r["errors"][:3] or core.tail(r["out"])))
     rp = os.path.join(ctx.scratch, "simreplay_%s.json" % tag)
     env = {"GORACE": "log_path=%s exitcode=0" % os.path.join(ctx.scratch, "race-" + tag)} if race else None
-    ctx.vdrive(["sysreplay", "-in", r["out"], "-out", rp, "-seed", ctx.seed], race=race, env=env)
+    pr = ctx.vdrive(["sysreplay", "-in", r["out"], "-out", rp, "-seed", ctx.seed], race=race, env=env, check=False)
     os.remove(r["out"])
+    if pr.returncode != 0:
+        cv = _crash_violation(ctx, pr, "sysreplay " + tag)     # raises Infra unless the repository's code killed the process
+        return dict(violations=[cv], evaluations=0, distinct_nontrivial=0, drift=0, samples=[], extra=dict(behaviours=0, gated_concurrent=0, with_two_or_more_extensions=0))
     rep = ctx.report(rp)
     cov["simulated_" + tag] = dict(procs=procs, max_ops=maxops, behaviours=rep["extra"]["behaviours"], gated=rep["extra"]["gated_concurrent"],
                                    drift=rep["drift"], drift_samples=rep.get("drift_samples", [])[:3])
@@ -199,6 +202,21 @@ def _apalache_rwlock(ctx):
     return out
 
 
+def _crash_violation(ctx, p, what):
+    """A harness process killed by the code under test (fatal error / panic with frames of the
+    repository) is a C06 observation, not an infrastructure failure."""
+    txt = (p.stdout or "") + (p.stderr or "")
+    repo = os.path.realpath(core.REPO)
+    fatal = [ln for ln in txt.splitlines() if ln.startswith("fatal error:") or ln.startswith("panic:")]
+    if p.returncode != 0 and fatal and (repo + "/" in txt or "gabriel-vasile/mimetype" in txt):
+        frames = [ln.strip() for ln in txt.splitlines() if repo + "/" in ln][:6]
+        return dict(property="C06", kind="process-crash", limit=None, key="C06|crash|" + fatal[0][:80],
+                    input_text="%s: %s" % (what, fatal[0]), detail="\n".join(fatal[:2] + frames))
+    if p.returncode != 0:
+        raise core.Infra("vdrive %s failed (exit %d):\n%s" % (what, p.returncode, txt[-3000:]))
+    return None
+
+
 def c06(ctx):
     prop = "C06"
     quick = ctx.tier == "quick"
@@ -288,17 +306,26 @@ def c06(ctx):
         cov["binding_selftest"] = outcome
     # 4. untraced stress under the race detector (no hook installed: no extra synchronisation)
     rp2 = os.path.join(ctx.scratch, "concrace.json")
-    ctx.vdrive(["conctrace", "-notrace", "-runs", 8 if quick else 64, "-goroutines", 8, "-ops", 400 if quick else 2000, "-seed", ctx.seed + 7, "-out", rp2],
-               race=True, env={"GORACE": "log_path=%s exitcode=0" % os.path.join(ctx.scratch, "race-stress")})
-    srep = ctx.report(rp2)
+    pr = ctx.vdrive(["conctrace", "-notrace", "-runs", 8 if quick else 64, "-goroutines", 8, "-ops", 400 if quick else 2000, "-seed", ctx.seed + 7, "-out", rp2],
+                    race=True, env={"GORACE": "log_path=%s exitcode=0" % os.path.join(ctx.scratch, "race-stress")}, check=False)
+    cv = _crash_violation(ctx, pr, "conctrace -notrace")
+    if cv:
+        violations.append(cv)
+        srep = dict(evaluations=0, extra={})
+    else:
+        srep = ctx.report(rp2)
     # 5. corpus-wide stress: concurrent results must equal the sequential ones; fresh charset labels; -race
     rp3 = os.path.join(ctx.scratch, "concstress.json")
-    ctx.vdrive(["concstress", "-corpus", CORPUS, "-rounds", 150 if quick else 2000, "-seed", ctx.seed + 11, "-out", rp3],
-               race=True, env={"GORACE": "log_path=%s exitcode=0" % os.path.join(ctx.scratch, "race-corpus")}, timeout=7000)
-    xrep = ctx.report(rp3)
-    violations += [v for v in xrep["violations"] if v["property"] == prop]
-    srep["evaluations"] += xrep["evaluations"]
-    cov["corpus_stress"] = dict(calls=xrep["evaluations"], samples=xrep["extra"]["samples"], fresh_charset_labels=xrep["extra"]["fresh_charset_labels"])
+    pr = ctx.vdrive(["concstress", "-corpus", CORPUS, "-rounds", 150 if quick else 2000, "-seed", ctx.seed + 11, "-out", rp3],
+                    race=True, env={"GORACE": "log_path=%s exitcode=0" % os.path.join(ctx.scratch, "race-corpus")}, timeout=7000, check=False)
+    cv = _crash_violation(ctx, pr, "concstress")
+    if cv:
+        violations.append(cv)
+    else:
+        xrep = ctx.report(rp3)
+        violations += [v for v in xrep["violations"] if v["property"] == prop]
+        srep["evaluations"] += xrep["evaluations"]
+        cov["corpus_stress"] = dict(calls=xrep["evaluations"], samples=xrep["extra"]["samples"], fresh_charset_labels=xrep["extra"]["fresh_charset_labels"])
     races = _race_reports(ctx)
     seen = set()
     for rc in races:
@@ -313,7 +340,7 @@ def c06(ctx):
         rule="design: all interleavings of 2 goroutines x 2 calls and 3 x 1 over the Sys.tla menu (RWExcl, reader/writer accounting, TreeStableUnderRLock, PublishedComplete, Linearizable, LookupLinearizable; termination under fairness). code: TLC-simulated interleavings (2 goroutines x 3 calls, 3 x 2) replayed with the hook points as scheduler gates on a -race build, results compared at every return; free-running executions (8 goroutines, random mix of Detect/DetectReader/DetectFile/SetLimit/Extend with caller-owned alias slices of capacity len, len+1, len+8/Lookup) logged at the hook points and validated by TraceConc.tla with the atomic load/store as silent steps; untraced stress under the race detector. non-trivial = gated concurrent behaviours replayed",
         exhaustive=False,
         free_running=dict(runs=crep["extra"]["runs"], events=crep["extra"]["events"], rejected_traces=rejected),
-        race_stress=dict(ops=srep["evaluations"], race_reports=len(races)),
+        race_stress=dict(ops=srep.get("evaluations", 0), race_reports=len(races)),
         samples=g2["samples"][:3] + crep["samples"][:4],
     )
     return core.finish(ctx, violations, cov, ["Go race detector and sync package trusted", "gate-driven replay only schedules interleavings the model allows; lock removal is left to the free-running traces and the race detector"])
